@@ -6,12 +6,10 @@ import (
 	"encoding/json"
 	"errors"
 	"fmt"
-	"os"
+	"net/url"
 	"reflect"
 	"regexp"
-	"sort"
 	"strings"
-	"unicode/utf8"
 
 	"github.com/PapaCharlie/go-restli/v2/restlicodec"
 	"verifgen/hx"
@@ -111,6 +109,19 @@ func decode(T reflect.Type, f int, data string, excl restlicodec.PathSpec, ignor
 	var p interface{}
 	func() {
 		defer func() { p = recover() }()
+		if f == 4 {
+			// the query-parameter reader: one parameter "p" holding the value, decoded through QueryParamsReader.ReadRecord
+			var qp restlicodec.QueryParamsReader
+			qp, err = restlicodec.ParseQueryParams("p=" + data)
+			if err != nil {
+				return
+			}
+			ptr = reflect.New(T)
+			err = qp.ReadRecord(restlicodec.NewRequiredFields().Add("p"), func(rd restlicodec.Reader, field string) error {
+				return ptr.Interface().(restlicodec.Unmarshaler).UnmarshalRestLi(rd)
+			})
+			return
+		}
 		var rd restlicodec.Reader
 		rd, err = newReader(f, data, excl, ignore)
 		if err != nil {
@@ -141,62 +152,110 @@ func callEquals(a, b reflect.Value) (eq bool, ok bool) {
 	return res[0].Bool(), true
 }
 
-type caseDesc struct {
-	Mode    string      `json:"mode"`
-	Type    string      `json:"type"`
-	Value   *Val        `json:"value"`
-	Excl    []string    `json:"excl,omitempty"`
-	Formats []fmtResult `json:"formats"`
-	Note    string      `json:"note,omitempty"`
-}
-type fmtResult struct {
+
+// ---- a case for the Coq model: a type, tables, and a list of observed operations
+type opDesc struct {
+	Op      string  `json:"op"` // enc | dec
 	Format  string  `json:"format"`
-	Enc     outcome `json:"enc"`
-	Bytes   string  `json:"bytes,omitempty"`
-	Dec     outcome `json:"dec"`
+	Value   *Val    `json:"value,omitempty"`
+	Data    string  `json:"data,omitempty"`
+	Outcome outcome `json:"outcome"`
 	Decoded *Val    `json:"decoded,omitempty"`
 }
+type caseDesc struct {
+	Mode  string   `json:"mode"`
+	Type  string   `json:"type"`
+	Excl  []string `json:"excl,omitempty"`
+	Ign   int      `json:"ignore,omitempty"`
+	Note  string   `json:"note,omitempty"`
+	Ops   []opDesc `json:"ops"`
+}
+type cb struct {
+	ty     string // Coq type term
+	fl     []floatEnt
+	texts  []string
+	ops    []string
+	desc   caseDesc
+}
 
-var schema *Schema
+func newCase(mode, tname, coqTy string) *cb {
+	return &cb{ty: coqTy, desc: caseDesc{Mode: mode, Type: tname}, texts: append([]string{}, baseTexts...)}
+}
+func (c *cb) addVal(v *Val) {
+	var fl []floatEnt
+	v.floats(&fl)
+	c.fl = append(c.fl, fl...)
+	for _, f := range fl {
+		c.texts = append(c.texts, f.text)
+	}
+}
+func (c *cb) enc(f int, v *Val, oc outcome, out string) {
+	c.addVal(v)
+	c.ops = append(c.ops, "OEnc "+fmt.Sprint(f)+" "+v.Coq()+" "+coqOutcomeEnc(oc, out))
+	c.desc.Ops = append(c.desc.Ops, opDesc{Op: "enc", Format: formats[f], Value: v, Data: out, Outcome: oc})
+}
+func (c *cb) dec(f int, data string, oc outcome, decoded *Val) {
+	c.texts = append(c.texts, candidateTexts(data, f)...)
+	c.ops = append(c.ops, "ODec "+fmt.Sprint(f)+" "+hx.CoqBytes(data)+" "+coqOutcomeDec(oc, decoded))
+	c.desc.Ops = append(c.desc.Ops, opDesc{Op: "dec", Format: formats[f], Data: data, Outcome: oc, Decoded: decoded})
+}
+func (c *cb) coq() string {
+	return "{| c_ty := " + c.ty + "; c_floats := " + coqFloats(c.fl) + "; c_parse := " + coqParseTable(c.texts) +
+		"; c_excl := " + hx.CoqBytesList(c.desc.Excl) + "; c_ignore := " + fmt.Sprint(c.desc.Ign) + "; c_ops := [" + strings.Join(c.ops, ";\n  ") + "] |}"
+}
+func (c *cb) describe() caseDesc {
+	for i := range c.desc.Ops {
+		c.desc.Ops[i].Value.fixJSON()
+		c.desc.Ops[i].Decoded.fixJSON()
+	}
+	return c.desc
+}
 
-// float texts every case may meet: the reserved strings and the numbers of the schema's default literals
-var baseTexts = []string{"NaN", "Infinity", "-Infinity"}
-
-func collectDefaultNumbers() {
-	re := regexp.MustCompile(`-?[0-9]+(\.[0-9]+)?([eE][+-]?[0-9]+)?`)
-	for _, n := range schema.Types {
-		for _, f := range n.Fields {
-			if f.DefaultValue != nil {
-				baseTexts = append(baseTexts, re.FindAllString(*f.DefaultValue, -1)...)
+// every text a reader might hand to strconv.ParseFloat while decoding data
+func candidateTexts(data string, f int) []string {
+	var out []string
+	if f <= 1 {
+		re := regexp.MustCompile(`-?[0-9]+(\.[0-9]+)?([eE][+-]?[0-9]+)?`)
+		out = append(out, re.FindAllString(data, -1)...)
+		var any interface{}
+		dec := json.NewDecoder(strings.NewReader(data))
+		dec.UseNumber()
+		if dec.Decode(&any) == nil {
+			var walk func(x interface{})
+			walk = func(x interface{}) {
+				switch y := x.(type) {
+				case string:
+					out = append(out, y)
+				case json.Number:
+					out = append(out, string(y))
+				case []interface{}:
+					for _, z := range y {
+						walk(z)
+					}
+				case map[string]interface{}:
+					for _, z := range y {
+						walk(z)
+					}
+				}
 			}
+			walk(any)
+		}
+		return out
+	}
+	toks := strings.FieldsFunc(data, func(r rune) bool { return r == '(' || r == ')' || r == ',' || r == ':' })
+	toks = append(toks, data)
+	for _, t := range toks {
+		if len(t) > 64 {
+			continue
+		}
+		if d, err := url.PathUnescape(t); err == nil {
+			out = append(out, d)
+		}
+		if d, err := url.QueryUnescape(t); err == nil {
+			out = append(out, d)
 		}
 	}
-	sort.Strings(baseTexts)
-}
-
-func allValidUtf8(v *Val) bool {
-	var ss []string
-	v.strings(&ss)
-	for _, s := range ss {
-		if !utf8.ValidString(s) {
-			return false
-		}
-	}
-	return true
-}
-
-func main() {
-	cfg := hx.ParseFlags()
-	schema = loadSchema(os.Getenv("VERIF_SCHEMA"))
-	collectDefaultNumbers()
-	mode := os.Getenv("VERIF_MODE")
-	switch mode {
-	case "c01":
-		runC01(cfg)
-	default:
-		fmt.Fprintln(os.Stderr, "unknown VERIF_MODE", mode)
-		os.Exit(2)
-	}
+	return out
 }
 
 func header() string {
@@ -220,46 +279,11 @@ func coqOutcomeDec(oc outcome, v *Val) string {
 	return "(DecFail " + coqClass(oc.Class) + ")"
 }
 
-func runC01(cfg *hx.Config) {
-	rep := hx.NewReport("schema family (17 named types through the REAL generator) x seeded values (sizes 0-3 per container, depth <= 3, byte pool weighted " +
-		"towards every ROR2/JSON/URL metacharacter, control bytes, 0x80-0xFF, multi-byte UTF-8, U+2028, empty strings/containers, int extremes, float " +
-		"specials and both sides of the 1e21/1e-7 switches) plus a single-byte sweep (each of the 256 bytes as string value, map key, bytes value) x 5 wire formats. " +
-		"non-trivial = the value holds a string/key/bytes with a byte outside [A-Za-z0-9_] or a float or a nested container; distinct by (type, value)")
-	sh := hx.NewShards(cfg.Out, header(), "CodecCorr", 120)
-	r := hx.NewRand(cfg.Seed)
-	n := 120
-	if cfg.Thorough() {
-		n = 2500
+func minInt(a, b int) int {
+	if a < b {
+		return a
 	}
-	emit := func(tname string, v *Val, note string) {
-		runRoundTrip(tname, v, note, rep, sh)
-	}
-	for _, tname := range schema.Top {
-		for i := 0; i < n; i++ {
-			o := genOpts{utf8: r.Chance(85), depth: 1 + r.Intn(3)}
-			emit(tname, schema.gen(r, ref(tname), o), "")
-		}
-	}
-	// single-byte sweep
-	for b := 0; b < 256; b++ {
-		s := string([]byte{byte(b)})
-		// Prims.s / Prims.y, Coll.m key+value, Coll.arr
-		prims := &Val{K: "rec", Fields: []*Val{{K: "int", Z: 1}, {K: "long", Z: 2}, {K: "float", Bits: 0}, {K: "double", Bits: 0}, {K: "bool", B: true}, {K: "str", S: s}, {K: "bytes", S: s}}}
-		emit("Prims", prims, "sweep")
-		coll := &Val{K: "rec", Fields: []*Val{
-			{K: "arr", Items: []*Val{{K: "str", S: s}, {K: "str", S: "x" + s + "y"}}},
-			{K: "map", Keys: []string{s, "k" + s}, Items: []*Val{{K: "str", S: s}, {K: "str", S: ""}}},
-			{K: "map", Keys: []string{s}, Items: []*Val{{K: "arr", Items: []*Val{{K: "rec", Fields: []*Val{{K: "int", Z: 7}, {K: "str", S: s}}}}}}},
-			{K: "arr", Items: []*Val{{K: "map", Keys: []string{s}, Items: []*Val{{K: "long", Z: -5}}}}},
-			{K: "arr", Items: []*Val{{K: "bytes", S: s}}},
-			nil}}
-		emit("Coll", coll, "sweep")
-		u := &Val{K: "union", Fields: []*Val{nil, {K: "str", S: s}, nil, nil, nil}}
-		emit("U", u, "sweep")
-	}
-	sh.Close()
-	rep.Shards = sh.Files
-	rep.Write(cfg.Out)
+	return b
 }
 
 func nontrivial(v *Val) bool {
@@ -278,95 +302,16 @@ func nontrivial(v *Val) bool {
 	return len(fs) > 0
 }
 
-func runRoundTrip(tname string, v *Val, note string, rep *hx.Report, sh *hx.Shards) {
-	T := registry[tname]
-	t := ref(tname)
-	d := caseDesc{Mode: "c01", Type: tname, Value: v, Note: note}
-	ptr := reflect.New(T)
-	schema.toGo(t, v, ptr.Elem())
-	utf8ok := allValidUtf8(v)
-	valid := schema.valid(t, v)
-	var fl []floatEnt
-	v.floats(&fl)
-	var obs []string
-	for f := range formats {
-		fr := fmtResult{Format: formats[f]}
-		out, oc := encode(ptr, f, nil)
-		fr.Enc, fr.Bytes = oc, out
-		var decodedVal *Val
-		if oc.Class == "ok" {
-			back, doc := decode(T, f, out, nil, 0)
-			fr.Dec = doc
-			if doc.Class == "ok" || doc.Class == "missing" {
-				decodedVal = schema.fromGo(t, back.Elem())
-				fr.Decoded = decodedVal
-			}
-			// ---- property oracle (C01), evaluated on the implementation alone
-			if valid && (f >= 2 || utf8ok) {
-				site := "v2/restlicodec " + formats[f]
-				if doc.Class != "ok" {
-					rep.Fail(sigRoundTrip(f, v, "decode-"+doc.Class), "decoding the encoder's output fails", site, d.withFormat(fr), doc.Text)
-				} else {
-					want := schema.fillDefaults(t, v)
-					if !valEq(decodedVal, want) && valEq(decodedVal, schema.fillDefaultsAsGenerated(t, v)) {
-						rep.Fail("roundtrip:included-record-defaults-not-filled", "defaults declared in an included record are not filled when the including record is decoded",
-							"v2/codegen/types/record_unmarshaler.go:generateUnmarshaler", d.withFormat(fr), nil)
-					} else if !valEq(decodedVal, want) {
-						rep.Fail(sigRoundTrip(f, v, "value-differs"), "decode(encode(v)) differs from v", site, d.withFormat(fr), nil)
-					} else if !v.hasNaN() {
-						wantPtr := reflect.New(T)
-						schema.toGo(t, want, wantPtr.Elem())
-						if eq, ok := callEquals(back, wantPtr); ok && !eq {
-							rep.Fail(sigRoundTrip(f, v, "equals-false"), "the type's Equals rejects decode(encode(v))", site, d.withFormat(fr), nil)
-						}
-					}
-				}
-			}
-		} else if oc.Class == "panic" {
-			rep.Fail("encode-panic:"+formats[f], "encoder panicked", "v2/restlicodec "+formats[f], d.withFormat(fr), oc.Text)
-		} else if valid {
-			rep.Fail("encode-error-on-valid:"+formats[f], "a valid value is rejected by the encoder", "v2/restlicodec "+formats[f], d.withFormat(fr), oc.Text)
-		}
-		d.Formats = append(d.Formats, fr)
-		obs = append(obs, "("+coqOutcomeEnc(fr.Enc, fr.Bytes)+", "+coqOutcomeDec(fr.Dec, decodedVal)+")")
-	}
-	rep.Evaluations++
-	key, _ := json.Marshal(v.fixJSON())
-	rep.Distinct(tname+string(key), nontrivial(v))
-	rep.Count("type=" + tname)
-	rep.Count(fmt.Sprintf("utf8=%v", utf8ok))
-	rep.Count(fmt.Sprintf("floats=%d", minInt(len(fl), 3)))
-	if note == "" && nontrivial(v) {
-		rep.Sample(d)
-	}
-	texts := append([]string{}, baseTexts...)
-	for _, f := range fl {
-		texts = append(texts, f.text)
-	}
-	sh.Add("{| c_ty := "+schema.coqTy(t)+"; c_val := "+v.Coq()+"; c_floats := "+coqFloats(fl)+"; c_parse := "+coqParseTable(texts)+"; c_excl := []; c_ignore := 0; c_obs := ["+strings.Join(obs, ";")+"] |}", d)
+func valKey(v *Val) string {
+	b, _ := json.Marshal(v.fixJSON())
+	return string(b)
 }
 
-func (d caseDesc) withFormat(fr fmtResult) caseDesc {
-	d.Formats = []fmtResult{fr}
-	d.Value.fixJSON()
-	if fr.Decoded != nil {
-		fr.Decoded.fixJSON()
+// decode data as type tname with reader f and convert the result
+func decodeVal(tname string, f int, data string, excl restlicodec.PathSpec, ignore int) (outcome, *Val) {
+	back, oc := decode(registry[tname], f, data, excl, ignore)
+	if oc.Class == "ok" || oc.Class == "missing" {
+		return oc, schema.fromGo(ref(tname), back.Elem())
 	}
-	return d
-}
-
-func minInt(a, b int) int {
-	if a < b {
-		return a
-	}
-	return b
-}
-
-// signature of a round-trip failure: format family + what kind of content is involved (narrow, stable)
-func sigRoundTrip(f int, v *Val, what string) string {
-	fam := "json"
-	if f >= 2 {
-		fam = "ror2-" + formats[f]
-	}
-	return "roundtrip:" + fam + ":" + what
+	return oc, nil
 }
